@@ -54,7 +54,11 @@ func (m *Machine) updateParams(a *Action) (Outcome, error) {
 		msg = &oracletypes.MsgUpdateParams{Authority: authority, Params: oracletypes.Params{MaxSizePrices: p.MaxSizePrices + 1}}
 	case "dogfood":
 		p := c.App.StakingKeeper.GetDogfoodParams(ctx)
-		p.MaxValidators++
+		if a.N > 0 {
+			p.EpochsUntilUnbonded = uint32(a.N) // the unbonding period itself
+		} else {
+			p.MaxValidators++
+		}
 		msg = &dogfoodtypes.MsgUpdateParams{Authority: authority, Params: p}
 	case "exomint":
 		p := c.App.ExomintKeeper.GetParams(ctx)
